@@ -292,6 +292,9 @@ def _residual_map_last_iter(ift, sc, run, W, ns, niter, extract):
 # JAX routes
 # =====================================================================================
 def case_re(ck, rng, fam, m, mir, D, mean, x0, seed, desc, nontriv):
+    if not (ck.i is not None and ck.i < 7):
+        ck.note(desc, nontrivial=False, klass=fam)
+        vh.jax_budget_guard(ck)
     jax, jnp, jft, rs = vh.get_jax(ck)
     r = vh.build_re(jax, jnp, jft, m)
     lh = r["lh"]
